@@ -63,6 +63,11 @@ def run_case(tape, tier):
         # how the payload is given: as body=, as data= (sent as JSON), as fargs= (sent as a form) or not at all; what one
         # request was given must not show up in another
         how = "body" if method == "GET" else tape.pick("payload_how", ["body", "body", "data", "fargs", "none"])
+        early = False
+        if method != "GET" and how == "body" and tape.flag("big_upload", 1, 5):
+            # an upload several times the socket buffer: it goes out over many service passes; the peer answers it on sight
+            body = bytes(97 + (j * 7 + i) % 26 for j in range(tape.pick("big_n", [3000, 5000, 9000])))
+            early = tape.flag("answered_early", 2, 3)
         hops = []
         for h in range(tape.geometric("nhops", 3, 1, 4)):
             hops.append(dict(status=tape.pick("rstatus", [301, 302, 303, 307]),
@@ -71,7 +76,9 @@ def run_case(tape, tier):
             hops[-1]["query"] = tape.flag("loc_query", 1, 3)     # Location carries a query string
             if hops[-1]["target"] in STUCK:
                 break      # a redirect that cannot be followed ends the chain: the 3xx itself is the answer
-        spec = dict(i=i, method=method, body=body, how=how, hops=hops, delay=tape.pick("delay", [0, 0, 1, 3, 8]),
+        if early:
+            hops = []       # answered plainly
+        spec = dict(i=i, method=method, body=body, how=how, early=early, hops=hops, delay=tape.pick("delay", [0, 0, 1, 3, 8]),
                     framing=tape.pick("framing", ["length", "length", "chunked"]), nfrag=1 + tape.draw("nfrag", 4))
         reqs.append(spec)
     special = tape.pick("special", ["none", "none", "close-delimited-last", "peer-closes-mid", "https-to-http", "close-then-reconnect"])
@@ -86,6 +93,11 @@ def run_case(tape, tier):
     # a client set up to reconnect on its own, and a peer that answers one request completely with `Connection: close` and
     # closes: the requests still queued go out over the next connection, one at a time and in order as ever
     rc_at = tape.draw("rc_at", nreq) if special == "close-then-reconnect" else None
+    if special in ("close-then-reconnect", "peer-closes-mid", "close-delimited-last"):
+        # (a peer that answers an upload on sight AND closes leaves the unsent tail of the upload in the client's buffer; a
+        # reconnecting client sends it ahead of the next request on the new connection - DESIGN 6.4 - so the two are not combined)
+        for r in reqs:
+            r["early"] = False
     tyme = [0.0]
     if refuse_at is not None:
         # the refused hop: Location is plain http, on another port or on the very port the https peer listens on
@@ -95,13 +107,14 @@ def run_case(tape, tier):
         r["hops"] = [h for h in r["hops"] if h["target"] not in STUCK]
         r["hops"].append(dict(status=302, target=tape.pick("downgrade", ["downgrade-other", "downgrade-same"])))
     cfg = dict(tls=tls, special=special, close_at=close_at, refuse_at=refuse_at, rc_at=rc_at,
-               requests=[dict(i=r["i"], method=r["method"], how=r["how"], hops=r["hops"], delay=r["delay"], framing=r["framing"], nfrag=r["nfrag"]) for r in reqs])
+               requests=[dict(i=r["i"], method=r["method"], how=r["how"], early=r["early"], nbody=len(r["body"]), hops=r["hops"], delay=r["delay"], framing=r["framing"], nfrag=r["nfrag"]) for r in reqs])
     raised = []
     log = []          # ('req', mid, hop, peer) / ('done', mid, hop)
     inflight = {}     # (mid, hop) -> True while the response is not completely handed to the kernel
     where = {}        # (mid, hop) -> port of the peer that request arrived at
 
-    with netlab.Lab(tape, res, wirelog=False, tls=tls, rates=dict(short=tape.pick("r_short", [0, 4, 10]), partial=tape.pick("r_partial", [0, 4]))) as lab:
+    bigcap = dict(capacity=1024) if any(len(r["body"]) > 1000 for r in reqs) else {}
+    with netlab.Lab(tape, res, wirelog=False, tls=tls, **bigcap, rates=dict(short=tape.pick("r_short", [0, 4, 10]), partial=tape.pick("r_partial", [0, 4]))) as lab:
         net = lab.net
         # in a quarter of the cases the main peer only starts listening after a few service rounds: the first connection
         # attempts are refused while requests are already queued (and possibly already rendered into the connector's buffer)
@@ -185,21 +198,40 @@ def run_case(tape, tier):
                 head = bytes(c["rx"][:m.end()])
                 ml = re.search(rb"content-length: *(\d+)", head, re.I)
                 need = int(ml.group(1)) if ml else 0
-                if len(c["rx"]) < m.end() + need:
-                    break
-                reqbody = bytes(c["rx"][m.end():m.end() + need])
-                del c["rx"][:m.end() + need]
                 mp = re.match(rb"(\w+) /m(\d+)(?:/h(\d+))?(\?\S*)? HTTP", head)
+                early_now = False
+                if len(c["rx"]) < m.end() + need:
+                    # an upload still on its way: some peers answer as soon as they have seen the head (and go on reading the
+                    # body they were promised)
+                    if (mp and int(mp.group(2)) < len(reqs) and reqs[int(mp.group(2))].get("early") and not mp.group(3) and
+                            not st.get(("early", int(mp.group(2))))):
+                        early_now = True
+                        reqbody = None
+                    else:
+                        break
+                else:
+                    reqbody = bytes(c["rx"][m.end():m.end() + need])
+                    del c["rx"][:m.end() + need]
                 if not mp:
                     violation.append(("peer-got-garbage", "peer received an unparsable request head %r" % head[:60]))
                     continue
                 mid = int(mp.group(2))
                 hop = int(mp.group(3) or 0)
+                if not early_now and hop == 0 and st.get(("early", mid)):
+                    # the rest of an upload that was answered early has arrived: nothing more to answer
+                    if mid < len(reqs) and not payload_ok(reqs[mid], reqbody):
+                        violation.append(("wrong-request-on-wire", "request %d: the upload that was answered early arrived as %d bytes "
+                                          "%r..., queued were %d bytes" % (mid, len(reqbody), reqbody[:30], len(reqs[mid]["body"]))))
+                    res.probes["early_answered_upload_completed"] += 1
+                    continue
+                if early_now:
+                    st[("early", mid)] = True
+                    res.faults["upload_answered_before_it_was_complete"] += 1
                 wire_method = mp.group(1).decode()
                 wire_query = (mp.group(4) or b"").decode()
                 if mid < len(reqs):
                     rq = reqs[mid]
-                    if hop == 0 and (wire_method != rq["method"] or not payload_ok(rq, reqbody)):
+                    if hop == 0 and (wire_method != rq["method"] or (reqbody is not None and not payload_ok(rq, reqbody))):
                         violation.append(("wrong-request-on-wire", "request %d was queued as %s with body %r but went out as %s with body %r" % (
                             mid, rq["method"], (rq["how"], rq["body"]), wire_method, reqbody)))
                     if 0 < hop <= len(rq["hops"]):
@@ -239,6 +271,8 @@ def run_case(tape, tier):
                     inflight[(mid, hop)] = False
                     c["fin"] = True
                     res.faults["peer_closes_mid_queue"] += 1
+                if early_now:
+                    break      # the rest of the body is still to come
             q = st.get("queue")
             if q and not c["out"]:
                 item = q[0]
